@@ -29,7 +29,8 @@ REQUIRED = ["trees_built", "trees_with_unpruned_leaf", "trees_fully_pruned", "pr
             "parse_winner_only_entry_with_an_empty_list_or_null_for_already_eliminated",
             "parse_candidate_manifest_omits_a_candidate_of_the_contest", "parse_contest_labelled_other_than_IRV",
             "printed_trees_compared_with_the_tree_of_the_full_set", "assertion_records_given_as_lists",
-            "parse_elimination_record_whose_loser_is_in_its_eliminated_list"]
+            "parse_elimination_record_whose_loser_is_in_its_eliminated_list",
+            "parse_eliminated_list_naming_a_candidate_twice", "parse_tree_from_parsed_lists_compared"]
 ASSUMPTIONS = ["tag comparison is by assertion content (the module identifies an assertion by list.index, which maps exact "
                "duplicates to one index)"]
 N_CASES = {"quick": 128000, "thorough": 1024000}
@@ -342,6 +343,10 @@ def run_parse(case, rec, V):
                 # assertion says what it says
                 E = E + [rng.choice(("45", "W/I"))]
                 rec.count("parse_eliminated_set_names_an_id_outside_the_candidate_list")
+            if E and rng.random() < 0.1:
+                # an eliminated list that names a candidate twice (two sources concatenated): a set all the same
+                E = E + [rng.choice(E)]
+                rec.count("parse_eliminated_list_naming_a_candidate_twice")
             if rng.random() < 0.1:
                 # a record whose "loser" field names a candidate of its own eliminated list (another writer's idea of what
                 # "loser" means there): the assertion is about the winner and the eliminated set, which is what it says
@@ -418,3 +423,23 @@ def run_parse(case, rec, V):
     if [(a, set(b), c) for a, b, c in el] != want_el:
         rec.violation("c20.parse", "irv_elimination_translation_wrong", {"got": [[a, sorted(b), c] for a, b, c in el],
                                                                          "want": [[a, sorted(b), c] for a, b, c in want_el]})
+        return
+    if len(cands) <= 5:
+        # what is parsed is what the trees are built from: the tree for one alternative winner built from the PARSED lists
+        # must be the tree built from the same assertions written down directly (sets as sets)
+        root = cands[1 + (len(ajson) % (len(cands) - 1))]
+        with contextlib.redirect_stdout(sink), warnings.catch_warnings():
+            warnings.simplefilter("ignore")
+            ok1, t1 = rec.guard("c20.call:buildRemainingTreeAsLists", V.buildRemainingTreeAsLists, root, set(cands) - {root}, list(wo), list(el))
+            ok2, t2 = rec.guard("c20.call:buildRemainingTreeAsLists", V.buildRemainingTreeAsLists, root, set(cands) - {root},
+                                [tuple(t) for t in want_wo], [(a, set(b), c) for a, b, c in want_el])
+        if not (ok1 and ok2):
+            return
+        a_l, a_p, b_l, b_p = [], [], [], []
+        walk(t1, [], a_l, a_p)
+        walk(t2, [], b_l, b_p)
+        sig = lambda L: sorted((tuple(p_), tuple(n_.NEBTagList), tuple(n_.IRVTagList)) for p_, n_ in L)
+        rec.count("parse_tree_from_parsed_lists_compared")
+        if sig(a_l) != sig(b_l) or sig(a_p) != sig(b_p):
+            rec.violation("c20.parse", "tree_built_from_the_parsed_lists_differs_from_the_tree_of_the_same_assertions",
+                          {"root": root, "parsed_unpruned": len(a_l), "direct_unpruned": len(b_l), "assertion_json": ajson[:6]})
